@@ -248,7 +248,7 @@ CLAIMED = {
              "independent log-decoding oracle. Findings: F3 (leftover filling the buffer => connection dropped despite KeepConn, /repo fd29a7b) "
              "and F4 (a transport error of kind ConnectionAborted taken for a client abort => reuse after an I/O error, /repo b370518), both "
              "repaired; replays in corpus/C07, corpus/C12 run first. Partial as to the runtime: executor/waker protocol, rustc's async lowering, "
-             "futures-util select/Mutex are modelled by contract. WHOLE-CONNECTION LOG: C07_connection_log - for every client, transport (faults included) and handler scripts the handler invocations are chained in the transport log and each one whose close completed is answered by exactly [parser replies][empty Stdout, empty Stderr if writeable][ONE EndRequest with the invocation's status and the id of the request the handler saw], written after everything the handler wrote and before anything of the next request (ghost log run_loop_log, C07_log_is_ghost). REUSE: C07_reuse_is_invisible - what invocation i of a connection carrying k requests starts with and can read (request, selected stream, content to come of every input stream) equals what the single invocation of a fresh connection carrying only request i starts with and can read.",
+             "futures-util select/Mutex are modelled by contract. WHOLE-CONNECTION LOG: C07_connection_log - for every client, transport (faults included) and handler scripts the handler invocations are chained in the transport log and each one whose close completed is answered by exactly [parser replies][empty Stdout, empty Stderr if writeable][ONE EndRequest with the invocation's status and the id of the request the handler saw], written after everything the handler wrote and before anything of the next request (ghost log run_loop_log, C07_log_is_ghost). REUSE: C07_reuse_is_invisible - what invocation i of a connection carrying k requests starts with and can read (request, selected stream, content to come of every input stream) equals what the single invocation of a fresh connection carrying only request i starts with and can read. DECODED LOG: C07_epilogue_records - on a fault-free transport, for handlers that await their reads and write to Stdout/Stderr, every closed invocation owns a stretch of the log that decodes completely into records and contains exactly one EndRequest with the request's id: the last record, with the invocation's status, directly preceded (if the request became writeable) by the empty Stdout and Stderr records.",
         design="6/C07, 13.3", technique="Coq proof on an executable connection model (parse_request as a read schedule composed with the C01 theorem; write path, epilogue, reuse decision) + differential execution of scripted connections on a deterministic executor with log-decoding oracle",
         note="the composition 'k requests in sequence' is by the loop's shape and correspondence, not one theorem; single task; handlers await each I/O op to completion."),
     "C10": dict(
